@@ -343,6 +343,8 @@ package updown
 //@   before call:writeUpDownCatchment#1: assert [c12.slots] !table && arg(0) == out && forall(k, 0, nQ, QResultsArray[k] == envat(cResults, resultOfTR(k)) && QResultsArray[k].qidx == k)
 //@   ghost gErrSeen bool = false
 //@   ghost gWriteFailed bool = false
+//@   before return#6: assert [dbg6] err != nil
+//@   before return#7: assert [dbg7] err != nil
 //@   before return#6: do gErrSeen = true
 //@   before return#7: do gErrSeen = true
 //@   before return#6: assert [c18.error.first] len(recvd(cErr)) == 1 && err == recvd(cErr)[0]
